@@ -239,7 +239,7 @@ func init() {
 		}
 		est := map[uint64][2]int64{1: {10, 12}, 2: {20, 25}}
 		type ment struct {
-			win          []int64
+			win           []int64
 			series, total int64
 		}
 		var evs []ev
